@@ -95,6 +95,8 @@ FIRST_MISSED = {
     "C04-10": "no check reported it -> HSK-VER: NoiseGrpcConn hands its configured min/max handshake version to every machine it builds; the options store into the field of their name",
     "C07-9": "no check reported it -> NILLATE: outside start and the goroutines it launches, a method call on a field that only start() fills in (the tickers) is under a nil check of it",
     "C07-10": "own property silent (reported by C02 AUTHERR) -> ERRUSE extended to slice results (indexing, slicing beyond 0, encoding/binary decoders) and to errors that are handed to the caller untested",
+    "C16-9": "own property silent (reported by C05/C08 TAINT-WIRE) -> FLUSH: Flush only ever advances a pending slice by the count its Write returned",
+    "C14-9": "no check reported it -> CHUNK-2: maxChunkSize is stored exactly as configured (the option's argument, not reassigned)",
     "C06-3": "no check reported it -> RATELIMIT: once lastResend is refreshed the packets are transmitted",
 }
 
